@@ -12,15 +12,32 @@ def trimSuffixSep (s : Str) : Str :=
   | some c => if c = sep then s.dropLast else s
   | none => s
 
-/-- `(*BasePathFs).RealPath` (as repaired: the prefix test is made on a separator boundary).
-    `none` = os.ErrNotExist. -/
+/-- what is left of a cleaned path below the base path must not begin with `..` -/
+def restOK (rest : Str) : Bool := rest ≠ dotdot ∧ ¬ hasPrefix rest (dotdot ++ [sep])
+
+/-- `withinBasePath` (as repaired): the cleaned path is the cleaned base path, or lies below it — on a
+    separator boundary, and (for relative base paths such as "." or "..") without climbing out again -/
+def withinBasePath (bpath path : Str) : Bool :=
+  path = bpath ∨
+    (if bpath = dot then restOK path
+     else hasPrefix path (trimSuffixSep bpath ++ [sep]) ∧ restOK (path.drop (trimSuffixSep bpath ++ [sep]).length))
+
+/-- `(*BasePathFs).RealPath` (as repaired). `none` = os.ErrNotExist. -/
 def realPath (base name : Str) : Option Str :=
   let bpath := clean base
   let path := clean (join2 bpath name)
-  if path = bpath ∨ hasPrefix path (trimSuffixSep bpath ++ [sep]) then some path else none
+  if withinBasePath bpath path then some path else none
 
-/-- `BasePathFile.Name` (as repaired): strings.TrimPrefix(sourcename, TrimSuffix(Clean(f.path), "/")) -/
-def bpFileName (base sourcename : Str) : Str := trimPrefix sourcename (trimSuffixSep (clean base))
+/-- `BasePathFile.Name` (as repaired): strings.TrimPrefix(sourcename, TrimSuffix(Clean(f.path), "/")); below
+    the base path "." the source's names carry no prefix, and the separator is put in front unless it is
+    there; a relative base path on a source that reports rooted names is compared with the separator in front -/
+def bpFileName (base sourcename : Str) : Str :=
+  let bpath := trimSuffixSep (clean base)
+  if bpath = dot then
+    (if sourcename = dot then [] else if isRooted sourcename then sourcename else sep :: sourcename)
+  else
+    let bpath := if bpath ≠ [] ∧ ¬ isRooted bpath ∧ isRooted sourcename then sep :: bpath else bpath
+    trimPrefix sourcename bpath
 
 /-- the name `httpDir.Open` hands to the source: Join(dir, path.Clean("/"+name)) -/
 def httpPath (basePath name : Str) : Str :=
